@@ -277,8 +277,10 @@ func (z *BigInt) updateInnerFromUint64(val uint64, neg bool) {
 		}
 	}
 
-	// Set or unset the negative sentinel.
-	if neg {
+	// Set or unset the negative sentinel. Zero is never negative: the inline
+	// fast paths compute the sign separately from the value and can ask for a
+	// negative zero (0 * -5, -1 / 5, -10 % 5).
+	if neg && val != 0 {
 		z._inner = negSentinel
 	} else {
 		z._inner = nil
@@ -710,7 +712,8 @@ func (z *BigInt) MulRange(x, y int64) *BigInt {
 func (z *BigInt) Neg(x *BigInt) *BigInt {
 	if x.isInline() {
 		z._inline = x._inline
-		if x._inner == negSentinel {
+		if x._inner == negSentinel || z._inline == [inlineWords]big.Word{} {
+			// -(-x) = x, and -0 = 0: zero is never negative.
 			z._inner = nil
 		} else {
 			z._inner = negSentinel
